@@ -873,6 +873,21 @@ func c11StructOps(sp, other *samlgen.KeyPair) []c11Op {
 			xd.InsertChildAt(0, ski)
 			return true
 		}},
+		// the mismatching certificate in a document that binds the XML-DSig / XML-Enc namespaces to other prefixes, or to none
+		{"cert-other-rsa+other-prefixes", true, func(ed *etree.Element) bool { r := setCert(other.CertB64, true)(ed); reprefix(ed, "other-prefixes"); return r }},
+		{"cert-other-rsa+default-namespace-on-KeyInfo", true, func(ed *etree.Element) bool {
+			r := setCert(other.CertB64, true)(ed)
+			reprefix(ed, "default-namespace-on-KeyInfo")
+			return r
+		}},
+		{"cert-other-rsa+all-default-namespaces", true, func(ed *etree.Element) bool {
+			r := setCert(other.CertB64, true)(ed)
+			reprefix(ed, "all-default-namespaces")
+			return r
+		}},
+		{"cert-ec+other-prefixes", true, func(ed *etree.Element) bool { r := setCert(ecCert, true)(ed); reprefix(ed, "other-prefixes"); return r }},
+		{"matching-cert+other-prefixes", false, func(ed *etree.Element) bool { reprefix(ed, "other-prefixes"); return false }},
+		{"matching-cert+all-default-namespaces", false, func(ed *etree.Element) bool { reprefix(ed, "all-default-namespaces"); return false }},
 		{"rm-x509cert", false, rm("./KeyInfo/EncryptedKey/KeyInfo/X509Data/X509Certificate")},
 		{"rm-x509data", false, rm("./KeyInfo/EncryptedKey/KeyInfo/X509Data")},
 		{"rm-inner-keyinfo", false, rm("./KeyInfo/EncryptedKey/KeyInfo")},
